@@ -109,6 +109,9 @@ type RaceInfo struct {
 	Addr      uintptr
 	A, B      string // "W site" / "R site"
 	Signature string
+	// Lib: both accesses are in library code (not in the harness or in a user
+	// function the harness handed to the library).
+	Lib bool
 }
 
 type pointRec struct {
